@@ -360,3 +360,24 @@ def arith_corpus():
             out.append(prefix + opener + "\n" + p1 + "\n " + p2 + "\n" + closer + tail + "\n")
         out.append("cat <<E\n$((" + p1 + "\n   " + p2 + "))\nE\n")
     return out
+
+
+def heredoc_truncations():
+    """sources cut inside the here-document region (after the announcement, before the last delimiter line is complete):
+    every one of them leaves a here-document unterminated and must be rejected"""
+    progs = [("cat <<A", [("foo\nbar\n", "A")]), ("cat <<A <<B", [("1\n", "A"), ("2\n3\n", "B")]), ("cat <<A; cat <<-B", [("x\n", "A"), ("\ty\n", "\tB")]),
+             ("cat <<A <<B <<C", [("", "A"), ("b\n", "B"), ("c\n", "C")]), ("if a; then b; fi <<END <<'E2'", [("q\n", "END"), ("$r\n", "E2")]),
+             ("a && b <<A | c <<\\B", [("", "A"), ("zz\n", "B")]), ("{ cat <<EOF1; } <<EOF2", [("in\n", "EOF1"), ("out\n", "EOF2")]),
+             ("cat <<A |", [("l\n", "A")]), ("x=$(cat <<A", [("v\n", "A")]), ("cat <<'A B'", [("t\n", "A B")])]
+    out = []
+    for first, docs in progs:
+        text = first + "\n"
+        ends = []
+        for body, delim in docs:
+            text += body + delim
+            ends.append(len(text))
+            text += "\n"
+        last = ends[-1]
+        for p in range(len(first), last):
+            out.append(text[:p])
+    return out
